@@ -291,3 +291,13 @@ package core
 
 //@ func AppendProviderMetricsToLog
 //@   trusted logging helper
+
+//@ ghost var served int
+//@ extern (net/http.Handler).ServeHTTP(w, r)
+//@   modifies *
+//@   records served = old(served) + 1
+//@   ensures secCount == old(secCount) && lastSecClientID == old(lastSecClientID) && lastSecAllowed == old(lastSecAllowed) && lastSecRetryAfter == old(lastSecRetryAfter) && lastSecReason == old(lastSecReason) && lastSecErr == old(lastSecErr)
+
+//@ ghost field limited bool
+//@ extern net/http.MaxBytesReader(w, r, n)
+//@   ensures res != nil && fresh(res) && ghost(res).limited
